@@ -247,7 +247,18 @@ def pat_tokens(p):
     if k == "T":
         return ["T", str(len(p[1]))] + [t for x in p[1] for t in pat_tokens(x)]
     if k == "R":
-        return ["R", str(len(p[1]))] + [t for x in p[1] for t in pat_tokens(x)]
+        # the source syntax has no parentheses for patterns: `a | b | c` is ONE or-pattern, so a nested
+        # ("R", [a, ("R", [b, c])]) renders to - and is parsed as - the flat list
+        alts = []
+
+        def flat(q):
+            if q[0] == "R":
+                for y in q[1]:
+                    flat(y)
+            else:
+                alts.append(q)
+        flat(p)
+        return ["R", str(len(alts))] + [t for x in alts for t in pat_tokens(x)]
     if k == "V":
         return ["V", str(p[1]), str(len(p[2]))] + [t for x in p[2] for t in pat_tokens(x)]
     if k == "O":
@@ -663,7 +674,24 @@ def show_val(v):
 OWN_KINDS = ("NonExhaustiveMatch", "UselessPattern")
 
 
+def core(ans):
+    """implementation answer without the hook section"""
+    return ans.split(" #A")[0]
+
+
+def abs_records(ans):
+    """[(entry, [rendered abstract pattern, ...])] from the hook section of an implementation answer"""
+    if " #A" not in ans:
+        return None
+    out = []
+    for item in ans.split(" #A", 1)[1].split():
+        entry, hx = item.split(":", 1)
+        out.append((entry, common.unhex(hx).decode().split(";") if hx != "-" else [""]))
+    return out
+
+
 def impl_verdict(ans):
+    ans = core(ans)
     if ans.startswith("panic"):
         t = ans.split(" ")
         return {"panic": common.unhex(t[1]).decode("utf-8", "replace") if len(t) > 1 else ""}
@@ -689,10 +717,11 @@ def model_verdict(ans):
     if not ans.startswith("nonexh="):
         return {"bad": ans}
     kv = dict(x.split("=", 1) for x in ans.split(" "))
+    absm = [re.sub(r"#(\d+)", lambda m: VNAMES[int(m.group(1))], a) for a in kv.get("abs", "").split(";")]
     ne = None if kv["nonexh"] == "-" else re.sub(r"#(\d+)", lambda m: VNAMES[int(m.group(1))], kv["nonexh"].replace("~", " "))
     return {"nonexh": ne, "useless": kv["useless"] == "1", "err": kv["err"] == "1",
             "panic_norm": kv["panic"] == "1", "typed": kv["typed"] == "1", "inh": kv.get("inh") == "1", "mono": kv.get("mono") == "1",
-            "hyp": kv.get("hyp") == "1", "swf": kv.get("swf") == "1"}
+            "hyp": kv.get("hyp") == "1", "swf": kv.get("swf") == "1", "abs": absm}
 
 
 def arity_overflow(classes, p, t):
@@ -752,6 +781,14 @@ def classify(ctx, case, ians, mans, stats):
     stats[status] = stats.get(status, 0) + 1
     if fails:
         return ("checker breaks C07: " + fails[0], False, None)
+    recs = abs_records(ians)
+    if recs is not None and stats.get("__check_abs__", True):
+        want = "useful" if case["kind"] == "iflet" else "counterexample"
+        extra_ok = stats.get("__abs_extra__", [])
+        seen = [r for r in recs if r[1] not in extra_ok]
+        if not any(r == (want, mv["abs"]) for r in seen) or any(r != (want, mv["abs"]) for r in seen):
+            stats_abs = "; ".join(f"{e}[{' ; '.join(a)}]" for e, a in recs) or "<no call>"
+            return (f"abstract patterns handed to the analysis differ from the model's normalisation: checker {stats_abs}  model {want}[{' ; '.join(mv['abs'])}]", True, None)
     for key in ("nonexh", "useless", "err"):
         if iv[key] != mv[key]:
             return (f"model/implementation disagreement on `{key}`: impl={iv[key]!r} model={mv[key]!r}", True, None)
@@ -901,6 +938,7 @@ def split_by_line(ans, where):
     """implementation answer of a whole module -> {context name: answer restricted to that line}, stray items"""
     out = {name: [] for name in where.values()}
     stray = []
+    ans = core(ans)
     if ans.startswith("E"):
         for item in ans.split(" ")[1:]:
             ln = int(item.split(":")[0])
@@ -920,6 +958,15 @@ def run_context_cases(ctx, cases, stats):
         ia = impl[i] if i < len(impl) else "<missing>"
         ma = model[i] if i < len(model) else "<missing>"
         src, where = rendered[i]
+        recs = abs_records(ia) or []
+        mabs = model_verdict(ma).get("abs")
+        alien = [r for r in recs if r[1] != mabs and r[1] != ["_"]]
+        if alien and mabs is not None:
+            ctx.violation("expression contexts: the checker handed abstract patterns to the analysis that are not the model's normalisation: "
+                          + "; ".join(f"{e}[{' ; '.join(a)}]" for e, a in alien[:3]) + f"  model [{' ; '.join(mabs)}]",
+                          {"protocol": "patcheck/contexts", "source": src, "line": lines[i], "impl": ia, "model": ma,
+                           "broken": "correspondence `patcheck` (abstract matrix via hook verif_hooks_c07)"}, no_input=True)
+        ia = core(ia)
         if ia.startswith("panic") or not (ia == "ok" or ia.startswith("E")):
             per, stray = {name: ia for name in where.values()}, []
         else:
@@ -942,6 +989,7 @@ def run_context_cases(ctx, cases, stats):
             def fails(cand, name=name, no_input=no_input):
                 s2, w2 = render_ctx_case(cand, only=name)
                 i2, m2 = common.run_pair("C07", [case_line(cand, s2)])
+                i2 = [core(x) for x in i2]
                 p2, st2 = split_by_line(i2[0], w2) if (i2 and (i2[0] == "ok" or i2[0].startswith("E"))) else ({name: i2[0] if i2 else "<missing>"}, [])
                 r2 = classify(ctx, cand, p2.get(name, "ok"), m2[0] if m2 else "<missing>", {})
                 return r2 is not None and r2[1] == no_input
@@ -949,6 +997,7 @@ def run_context_cases(ctx, cases, stats):
             s2, w2 = render_ctx_case(small, only=name if name in [cd[0] for cd in CONTEXTS] else None)
             l2 = case_line(small, s2)
             i2, m2 = common.run_pair("C07", [l2])
+            i2 = [core(x) for x in i2]
             p2, _ = split_by_line(i2[0], w2) if (i2[0] == "ok" or i2[0].startswith("E")) else ({name: i2[0]}, [])
             r2 = classify(ctx, small, p2.get(name, "ok"), m2[0], {}) or r
             payload = {"protocol": "patcheck/contexts", "context": name, "source": s2, "line": l2,
@@ -964,6 +1013,7 @@ def run_cases(ctx, cases, label, stats):
     lines = [case_line(c) for c in cases]
     impl, model = common.run_pair("C07", lines)
     bad = 0
+    failures = []
     for i, c in enumerate(cases):
         ia = impl[i] if i < len(impl) else "<missing>"
         ma = model[i] if i < len(model) else "<missing>"
@@ -981,10 +1031,20 @@ def run_cases(ctx, cases, label, stats):
             ctx.known(finding)
             continue
         bad += 1
-        if bad > 3:
+        failures.append((c, r))
+    # report concrete (property-level) inputs first, then a few tie disagreements
+    failures.sort(key=lambda cr: cr[1][1])
+    n_conc = n_tie = 0
+    for c, r in failures:
+        what, no_input, _ = r
+        if (no_input and n_tie >= 2) or (not no_input and n_conc >= 3):
             continue
+        if no_input:
+            n_tie += 1
+        else:
+            n_conc += 1
 
-        def fails(cand):
+        def fails(cand, no_input=no_input):
             l = case_line(cand)
             i2, m2 = common.run_pair("C07", [l])
             r2 = classify(ctx, cand, i2[0] if i2 else "<missing>", m2[0] if m2 else "<missing>", {})
@@ -1083,6 +1143,67 @@ def deterministic_family():
     return out
 
 
+def wrapper_family():
+    """Seed-independent TYPE-side family: enums with 1, 2 and 3 variants and payload arity 0..3, payloads
+    drawn from {int, enum, struct of enums, generic enum instantiated, single-variant wrapper of these,
+    wrapper of a wrapper}, and for every scrutinee type every pattern that has its single refutable
+    leaf at one path of the type's constructor tree (depth <= 3), all other positions `_`, with struct
+    nodes written alternately as tuple and as object pattern (fields reversed) - as match (alone and
+    followed by `_`), let and if-let.  (bool payloads are not generated: patterns cannot inspect a
+    primitive, `int` stands for all of them.)"""
+    W = ("W",)
+    INT = ("int",)
+    cls = lambda n, a=None: ("cls", n, a)
+    C0 = cls("C0")
+    classes = [
+        {"name": "C0", "generic": 0, "kind": "enum", "variants": [(0, []), (1, [])]},                               # 2 x arity 0
+        {"name": "C1", "generic": 0, "kind": "enum", "variants": [(0, []), (2, [INT]), (3, [C0, C0])]},            # 3 variants, arity 0,1,2
+        {"name": "C2", "generic": 0, "kind": "struct", "fields": [(0, C0), (1, INT)]},                             # struct of enum + int
+        {"name": "C3", "generic": 0, "kind": "struct", "fields": [(0, C0), (1, cls("C1"))]},                       # "pair" of enums
+        {"name": "G4", "generic": 1, "kind": "enum", "variants": [(4, []), (5, [("tp", 0)])]},                     # generic
+        {"name": "C5", "generic": 0, "kind": "enum", "variants": [(6, [cls("C2")])]},                              # single variant, struct payload
+        {"name": "C6", "generic": 0, "kind": "enum", "variants": [(6, [C0])]},                                     # single variant, enum payload
+        {"name": "C7", "generic": 0, "kind": "enum", "variants": [(7, [cls("C2"), cls("G4", (C0,)), cls("C6")])]},  # single variant, arity 3
+        {"name": "C8", "generic": 0, "kind": "enum", "variants": [(7, [cls("C5")])]},                              # wrapper of a wrapper
+        {"name": "C9", "generic": 0, "kind": "enum", "variants": [(5, [cls("C2")]), (6, [cls("C2"), cls("C3")]), (4, [])]},
+        {"name": "C10", "generic": 0, "kind": "enum", "variants": [(7, [])]},                                      # single variant, arity 0
+    ]
+    roots = [cls("C5"), cls("C6"), cls("C7"), cls("C8"), cls("C9"), cls("C10"), cls("C3"), cls("C2"),
+             cls("G4", (cls("C2"),)), cls("G4", (cls("C5"),)), cls("G4", (cls("C8"),)), cls("G4", (cls("C10"),))]
+    flip = [0]
+
+    def spines(t, depth):
+        d = ty_def(classes, t)
+        if depth == 0 or d[0] == "prim":
+            return
+        if d[0] == "enum":
+            for v, tys in d[2][:2]:
+                yield ("V", v, [W] * len(tys), bool(tys))              # leaf (refutable iff >= 2 variants)
+            for v, tys in d[2]:
+                for j, ft in enumerate(tys):
+                    for sub in spines(ft, depth - 1):
+                        yield ("V", v, [sub if i == j else W for i in range(len(tys))], True)
+        else:
+            fs = d[1]
+            for j, (f, ft) in enumerate(fs):
+                for sub in spines(ft, depth - 1):
+                    flip[0] += 1
+                    if flip[0] % 2:
+                        yield ("T", [sub if i == j else W for i in range(len(fs))])
+                    else:
+                        yield ("O", [(g, sub if g == f else W) for g, _ in reversed(fs)])
+    out, seen = [], set()
+    for ty in roots:
+        for p in spines(ty, 3):
+            key = (ty, repr(p))
+            if key in seen:
+                continue
+            seen.add(key)
+            for kind, pats in (("match", [p]), ("match", [p, W]), ("let", [p]), ("iflet", [p])):
+                out.append({"classes": classes, "ty": ty, "kind": kind, "pats": pats, "home": None})
+    return out
+
+
 def gen_object_case(rng):
     """Stream `object-reorder`: a struct of 2-3 enum-typed fields matched by object patterns whose
     fields are written in a random order, each with a refutable sub-pattern (or `_`), in several arms -
@@ -1168,6 +1289,9 @@ def run(ctx):
     fam = deterministic_family()
     run_cases(ctx, fam, "deterministic family (pattern conversion branches)", stats); total += len(fam)
     stats["deterministic_family"] = len(fam)
+    wfam = wrapper_family()
+    run_cases(ctx, wfam, "deterministic family (single-variant wrappers, refutable leaf at every path)", stats); total += len(wfam)
+    stats["wrapper_family"] = len(wfam)
     corpus.append(F1_CASE)   # regression input of the fixed finding C07-F1 (must not panic any more)
     run_cases(ctx, corpus, "corpus", stats); total += len(corpus)
     n_valid = ctx.scale(1400, 40000)
@@ -1214,7 +1338,7 @@ def run(ctx):
         "rule": "one evaluation = one generated module (1-4 enum/struct/generic classes, recursive and nested) with one match (1-6 arms) / destructuring let / if-let over variant, tuple, object, wildcard, id, or-patterns of depth <= 4, type-checked by the real checker and by the model; non-trivial = distinct implementation answer carrying a NonExhaustiveMatch counterexample or an irrefutable-if-let diagnostic",
         "samples": samples, "traces_validated_against_impl": total,
         "case_kinds": stats["kinds"], "expression_contexts": stats["contexts"], "impl_outcomes": stats["outcomes"],
-        "oracle": {k: v for k, v in stats.items() if k in ("checked", "skipped-size", "skipped-malformed", "skipped-uninhabited", "illtyped", "uninhabited", "certified", "deterministic_family")},
+        "oracle": {k: v for k, v in stats.items() if k in ("checked", "skipped-size", "skipped-malformed", "skipped-uninhabited", "illtyped", "uninhabited", "certified", "deterministic_family", "wrapper_family")},
         "pending": PENDING})
     ctx.assumptions += [
         "every type reachable from the scrutinee type has a value (Inhabited'); for uninhabited recursive enums the algorithm still asks for all variants (stated in DESIGN section 8 C07)",
